@@ -167,6 +167,18 @@ PROPS["C08"] = {
     "expect_probes": ["os.futex_wait_blocked", "getcpu_migrate"],
 }
 
+PROPS["C15"] = {
+    "level": "exploration",
+    "scenarios": {"registry": {"quick": 200000, "thorough": 5000000, "thorough_time": 900}},
+    "rule": "one evaluation = one seeded simulated execution of 2-8 threads. memb/mb/qsbr: register/unregister churn (40% of the non-read operations) against both scanning phases of concurrent synchronize_rcu() callers, "
+            "checked with the C01 interval/litmus/reclamation oracles (a registered thread is never skipped) and the C02 deadlock/bounded-progress oracles (a thread that left is never waited for). "
+            "bp: threads register on first read-side use and unregister in the key destructor at exit; INIT_READER_COUNT knob 1/2/8 so the registry grows past its initial and doubled capacity, "
+            "mremap in-place success or failure (new chunk) chosen by the seed; a read-side signal handler is delivered at a seed-chosen access of the thread (first-use registration, ordinary code, thread exit); "
+            "a second wave of threads after everybody exited must reuse slots (no new mapping request). Non-trivial = a grace period overlapped a critical section; distinct = distinct event-log fingerprints.",
+    "assumptions": COMMON_ASSUME,
+    "expect_probes": ["registry.handler_runs", "signal.deferred_by_mask", "os.mremap_inplace", "os.mremap_failed", "signal_delivered"],
+}
+
 NOT_APPLICABLE = {}
 
 _SIM_NOTE = ("Trusted base: the usim runtime (scheduler, TSO model, simulated OS, tracked arena), gcc's access instrumentation, "
@@ -218,4 +230,7 @@ MANIFEST_TEXT = {
             "level_text": "Seeded model-based comparison against a reference multimap over the whole configuration space, executed under the simulator so that the library's own worker threads are interleaved and faulted.",
             "level_note": _SIM_NOTE + " The input dimension is sampled (seeded generation), not enumerated.",
             "technique": "deterministic simulation (library worker threads interleaved by the seeded scheduler) driving a seeded model-based comparison with a reference multimap"},
+    "C15": {"design_ref": "3.15",
+            "level_text": "Seeded exploration of (un)registration churn against running grace periods on every flavor, bp registry growth with simulated mremap outcomes, slot reuse and signal delivery around automatic registration and thread exit.",
+            "level_note": _SIM_NOTE},
 }
